@@ -19,9 +19,15 @@ use core::ops::{Deref, DerefMut};
 /// (non-null), rustc would then encode the discriminant of enums such as poster's `Property` or
 /// `RxPacket` in that pointer, and CBMC's symbolic execution cannot decide pointer-valued
 /// discriminants, which turns every `match` on such an enum into a full case split.
-#[derive(Clone, Copy)]
 pub struct Bytes {
     data: *const [u8],
+}
+// Clone but deliberately not Copy: the real `Bytes` is not Copy, and harness code must compile
+// against both.
+impl Clone for Bytes {
+    fn clone(&self) -> Self {
+        Bytes { data: self.data }
+    }
 }
 unsafe impl Send for Bytes {}
 unsafe impl Sync for Bytes {}
@@ -340,13 +346,28 @@ pub const CAP: usize = 192;
 #[cfg(not(any(feature = "cap_mid", feature = "cap_big", feature = "cap_huge")))]
 pub const CAP: usize = 96;
 
-#[derive(Clone)]
+/// `BytesMut` = window `(start, len)` onto shared, leaked storage `[u8; CAP]` (like the real
+/// crate's shared allocation): `split_to` / `split` / `freeze` are O(1) and copy nothing, the
+/// halves own disjoint windows.  `limit` is the end of the region this handle may grow into (a
+/// split-off front cannot grow into its sibling; the real crate would reallocate, the model
+/// reports "bytes model: capacity exceeded").  `hw` is shared per storage: every byte at an index
+/// >= *hw has never been written and is zero.
 pub struct BytesMut {
-    buf: [u8; CAP],
+    store: *mut [u8; CAP],
+    hw: *mut usize,
     start: usize,
     len: usize,
-    /// every byte of `buf` at an index >= hw is zero
-    hw: usize,
+    limit: usize,
+}
+unsafe impl Send for BytesMut {}
+unsafe impl Sync for BytesMut {}
+
+impl Clone for BytesMut {
+    fn clone(&self) -> Self {
+        let mut b = BytesMut::new();
+        b.extend_from_slice(&self[..]);
+        b
+    }
 }
 impl Default for BytesMut {
     fn default() -> Self {
@@ -365,8 +386,19 @@ impl core::fmt::Debug for BytesMut {
     }
 }
 impl BytesMut {
+    #[inline]
+    fn st(&self) -> &'static mut [u8; CAP] {
+        // SAFETY: leaked storage; windows of different handles are disjoint.
+        unsafe { &mut *self.store }
+    }
+    #[inline]
+    fn hwm(&self) -> &'static mut usize {
+        unsafe { &mut *self.hw }
+    }
     pub fn new() -> Self {
-        BytesMut { buf: [0; CAP], start: 0, len: 0, hw: 0 }
+        let store: *mut [u8; CAP] = Box::leak(Box::new([0u8; CAP]));
+        let hw: *mut usize = Box::leak(Box::new(0usize));
+        BytesMut { store, hw, start: 0, len: 0, limit: CAP }
     }
     pub fn with_capacity(_n: usize) -> Self {
         Self::new()
@@ -378,7 +410,7 @@ impl BytesMut {
         self.len == 0
     }
     pub fn capacity(&self) -> usize {
-        CAP - self.start
+        self.limit - self.start
     }
     pub fn reserve(&mut self, _n: usize) {}
     pub fn resize(&mut self, n: usize, val: u8) {
@@ -386,25 +418,26 @@ impl BytesMut {
             self.len = n;
             return;
         }
-        assert!(self.start + n <= CAP, "bytes model: capacity exceeded");
+        assert!(self.start + n <= self.limit, "bytes model: capacity exceeded");
         let from = self.start + self.len;
         let to = self.start + n;
+        let hw = *self.hwm();
         if val == 0 {
             // bytes at index >= hw are zero already
-            let stop = if to < self.hw { to } else { self.hw };
+            let stop = if to < hw { to } else { hw };
             let mut i = from;
             while i < stop {
-                self.buf[i] = 0;
+                self.st()[i] = 0;
                 i += 1;
             }
         } else {
             let mut i = from;
             while i < to {
-                self.buf[i] = val;
+                self.st()[i] = val;
                 i += 1;
             }
-            if self.hw < to {
-                self.hw = to;
+            if hw < to {
+                *self.hwm() = to;
             }
         }
         self.len = n;
@@ -418,56 +451,57 @@ impl BytesMut {
         self.len = 0;
     }
     pub fn extend_from_slice(&mut self, s: &[u8]) {
-        assert!(self.start + self.len + s.len() <= CAP, "bytes model: capacity exceeded");
+        assert!(self.start + self.len + s.len() <= self.limit, "bytes model: capacity exceeded");
         let base = self.start + self.len;
         let mut i = 0;
         while i < s.len() {
-            self.buf[base + i] = s[i];
+            self.st()[base + i] = s[i];
             i += 1;
         }
         self.len += s.len();
-        if self.hw < base + s.len() {
-            self.hw = base + s.len();
+        if *self.hwm() < base + s.len() {
+            *self.hwm() = base + s.len();
         }
     }
     pub fn freeze(self) -> Bytes {
-        let (start, len) = (self.start, self.len);
-        let leaked: &'static BytesMut = Box::leak(Box::new(self));
-        Bytes::of(&leaked.buf[start..start + len])
+        let st: &'static [u8; CAP] = self.st();
+        Bytes::of(&st[self.start..self.start + self.len])
     }
     pub fn split(&mut self) -> BytesMut {
-        let r = BytesMut { buf: self.buf, start: self.start, len: self.len, hw: self.hw };
+        let r = BytesMut { store: self.store, hw: self.hw, start: self.start, len: self.len, limit: self.start + self.len };
         self.start += self.len;
         self.len = 0;
         r
     }
     pub fn split_to(&mut self, at: usize) -> BytesMut {
         assert!(at <= self.len, "split_to out of bounds: {:?} <= {:?}", at, self.len);
-        let front = BytesMut { buf: self.buf, start: self.start, len: at, hw: self.hw };
+        let front = BytesMut { store: self.store, hw: self.hw, start: self.start, len: at, limit: self.start + at };
         self.start += at;
         self.len -= at;
         front
     }
     pub fn split_off(&mut self, at: usize) -> BytesMut {
         assert!(at <= self.len, "split_off out of bounds: {:?} <= {:?}", at, self.len);
-        let back = BytesMut { buf: self.buf, start: self.start + at, len: self.len - at, hw: self.hw };
+        let back = BytesMut { store: self.store, hw: self.hw, start: self.start + at, len: self.len - at, limit: self.limit };
         self.len = at;
+        self.limit = self.start + at;
         back
     }
 }
 impl Deref for BytesMut {
     type Target = [u8];
     fn deref(&self) -> &[u8] {
-        &self.buf[self.start..self.start + self.len]
+        let st: &'static [u8; CAP] = self.st();
+        &st[self.start..self.start + self.len]
     }
 }
 impl DerefMut for BytesMut {
     fn deref_mut(&mut self) -> &mut [u8] {
         let end = self.start + self.len;
-        if self.hw < end {
-            self.hw = end;
+        if *self.hwm() < end {
+            *self.hwm() = end;
         }
-        &mut self.buf[self.start..end]
+        &mut self.st()[self.start..end]
     }
 }
 impl AsRef<[u8]> for BytesMut {
